@@ -12,19 +12,20 @@ _pick = lambda txt: [v for v in VARIANTS if v[0] == txt][0]
 LAYOUT_SET = [_pick("x0"), _pick("v7.2d"), _pick("#16"), _pick("ne"), _pick("loop"), _pick("[x1, x2, lsl #3]")]
 LONE = [v for v in IMMS if v[1][0] == "id"] + MEMS[:6] + REGS[:4]
 FILE_LINES = [("", "blank"), ("   ", "blank"), ("\t", "blank"), ("// a comment", "comment"), ("  // indented comment", "comment"), (".L5:", "label"), (".L6:   // with comment", "label"),
-              (".p2align 4,,10", "directive"), ("\t.byte 213,3,32,31 // marker", "directive"), ("\tfmla\tv1.2d, v2.2d, v3.2d", "instruction"), ("ldr x1, [x2, x3, lsl #3] // load", "instruction"), ("ret", "instruction")]
+              (".p2align 4,,10", "directive"), ("\t.byte 213,3,32,31 // marker", "directive"), ("\tfmla\tv1.2d, v2.2d, v3.2d", "instruction"), ("ldr x1, [x2, x3, lsl #3] // load", "instruction"), ("ret", "instruction"),
+              ("  ret", "instruction"), ("ret  ", "instruction"), ("// a comment  ", "comment")]      # same content, other white space
 
 CELLS = make("aarch64", P, VARIANTS, LONE, _asm.A64_LAYOUTS, _asm.render_a64, _asm.line_ok, "//", ["ldr", "fmla", "b.ne"], FILE_LINES, layout_set=LAYOUT_SET)
 
 
 # register lists and ranges are expanded to their members
-def _list_concrete(first, count, rng, shape, idx, lay):
+def _list_concrete(first, count, rng, shape, idx, lay, which=1):
     from harness._asm import line_ok, A64_LAYOUTS, render_a64
     lanes, sh = [("2", "d"), ("4", "s"), ("16", "b")][shape]
     regs = ["v%d.%s%s" % (first + k, lanes, sh) for k in range(count)]
     if idx:
-        body = "{" + ", ".join("v%d.%s" % (first + k, sh) for k in range(count)) + "}[1]"
-        exp = [("reg", "v", str(first + k), None, sh, "1", None) for k in range(count)]
+        body = "{" + ", ".join("v%d.%s" % (first + k, sh) for k in range(count)) + "}[%d]" % which
+        exp = [("reg", "v", str(first + k), None, sh, str(which), None) for k in range(count)]
     elif rng and count > 1:
         body = "{%s - %s}" % (regs[0], regs[-1])
         exp = [("reg", "v", str(first + k), lanes, sh, None, None) for k in range(count)]
@@ -36,9 +37,9 @@ def _list_concrete(first, count, rng, shape, idx, lay):
     return line_ok(f, "ld1", exp + [("mem", ("x", "0"), None, None, 1, False, None)], A64_LAYOUTS[lay][3]), True, {"line": line}
 
 
-def register_lists(first: int, count: int, rng: bool, shape: int, idx: bool, lay: int) -> bool:
+def register_lists(first: int, count: int, rng: bool, shape: int, idx: bool, lay: int, which: int) -> bool:
     """
-    pre: 0 <= first <= 27 and 1 <= count <= 4 and 0 <= shape < 3 and 0 <= lay < 5
+    pre: 0 <= first <= 27 and 1 <= count <= 4 and 0 <= shape < 3 and 0 <= lay < 5 and 0 <= which <= 3
     post: _
     """
     from vp.api import verdict, skip
@@ -47,13 +48,17 @@ def register_lists(first: int, count: int, rng: bool, shape: int, idx: bool, lay
         return True
     if idx and rng:
         return True
+    if not idx and which != 1:
+        return True
+    if which == 2:
+        return True
     if first != 0 and first != 9 and first != 27:
         return True
-    ok, nt, sample = native(_list_concrete, pick(first, 28), pick(count - 1, 4) + 1, True if rng else False, pick(shape, 3), True if idx else False, pick(lay, 5))
+    ok, nt, sample = native(_list_concrete, pick(first, 28), pick(count - 1, 4) + 1, True if rng else False, pick(shape, 3), True if idx else False, pick(lay, 5), pick(which, 4))
     return verdict(ok, nontrivial=nt, sample=sample)
 
 
-CELLS["register_lists"] = {"fn": register_lists, "bound": "register lists {..} and ranges {a - b} of 1-4 members starting at v0/v9/v27, 3 arrangements, element index form, all layouts", "budget": {"quick": 150, "thorough": 300}}
+CELLS["register_lists"] = {"fn": register_lists, "bound": "register lists {..} and ranges {a - b} of 1-4 members starting at v0/v9/v27, 3 arrangements, element index form with index 0, 1 and 3, all layouts", "budget": {"quick": 150, "thorough": 300}}
 
 META = {
     "functions": ["ParserAArch64.parse_line", "parse_instruction", "process_operand", "process_memory_address", "process_immediate", "process_register_operand", "resolve_range_list", "process_register_list",
